@@ -203,3 +203,81 @@ Proof.
   destruct (read p) eqn:R; try discriminate. inversion H; subst.
   exists p. repeat split; auto. exact (safe_join_beneath_proof cwd dir nm p J).
 Qed.
+
+(* ---- names computed inside templates ---- *)
+Lemma names_unchanged_proof : forall e parent name, path_join e = None ->
+  state_get_template e parent name = env_get_template e name /\
+  extends_lookup e parent (Some name) = env_get_template e name.
+Proof. intros e parent name H. unfold state_get_template, extends_lookup, join_template_path. rewrite H. split; reflexivity. Qed.
+
+Lemma names_joined_proof : forall e parent name cb, path_join e = Some cb ->
+  state_get_template e parent name = env_get_template e (cb name parent) /\
+  extends_lookup e parent (Some name) = env_get_template e (cb name parent).
+Proof. intros e parent name cb H. unfold state_get_template, extends_lookup, join_template_path. rewrite H. split; reflexivity. Qed.
+
+(* the loader is asked at most once per lookup, with exactly the joined name, and only for a name
+   the store does not hold *)
+Lemma loader_asked_proof : forall e parent name r asked,
+  state_get_template e parent name = (r, asked) ->
+  (asked = [] \/ asked = [join_template_path e name parent]) /\
+  (asked <> [] -> stored e (join_template_path e name parent) = None).
+Proof.
+  intros e parent name r asked H. unfold state_get_template, env_get_template in H.
+  destruct (stored e _) eqn:S.
+  - inversion H; subst. split; [left; reflexivity|intros X; contradiction].
+  - destruct (loader e); inversion H; subst; split; auto.
+Qed.
+
+(* every name the loader sees during an include is the joined form of one of the choices *)
+Lemma include_asks_joined_proof : forall e parent choices r asked,
+  include_lookup e parent choices = (r, asked) ->
+  Forall (fun a => exists name, In (Some name) choices /\ a = join_template_path e name parent) asked.
+Proof.
+  intros e parent. induction choices as [|[name|] rest IH]; intros r asked H; cbn [include_lookup] in H.
+  - injection H as <- <-. constructor.
+  - destruct (state_get_template e parent name) as [r0 a0] eqn:G.
+    assert (Hd : Forall (fun a => exists n, In (Some n) (Some name :: rest) /\ a = join_template_path e n parent) a0).
+    { destruct (loader_asked_proof e parent name r0 a0 G) as [[->| ->] _]; [constructor|].
+      constructor; [|constructor]. exists name. split; [left; reflexivity|reflexivity]. }
+    assert (Hrest : forall r' a', include_lookup e parent rest = (r', a') ->
+              Forall (fun a => exists n, In (Some n) (Some name :: rest) /\ a = join_template_path e n parent) a').
+    { intros r' a' I. eapply Forall_impl; [|exact (IH r' a' I)].
+      intros a (n & Hin & ->). exists n. split; [right; exact Hin|reflexivity]. }
+    destruct r0.
+    + injection H as <- <-. exact Hd.
+    + destruct (include_lookup e parent rest) as [r' a'] eqn:I. injection H as <- <-.
+      apply Forall_app. split; [exact Hd|exact (Hrest r' a' eq_refl)].
+    + injection H as <- <-. exact Hd.
+  - injection H as <- <-. constructor.
+Qed.
+
+(* composition with the path loader: whatever the template computes and whatever the join callback
+   returns, a source that comes from the path loader is the content of a file beneath the base *)
+Lemma env_get_confined_proof : forall cwd read dir e nm s asked,
+  loader e = Some (path_loader read dir) ->
+  env_get_template e nm = (Found s, asked) ->
+  stored e nm = Some s \/
+  exists p, safe_join dir nm = Some p /\ read p = ReadOk s /\ beneath cwd dir p = true.
+Proof.
+  intros cwd read dir e nm s asked L H. unfold env_get_template in H.
+  destruct (stored e nm) eqn:S; [inversion H; subst; left; reflexivity|].
+  rewrite L in H. destruct (path_loader read dir nm) eqn:P; inversion H; subst.
+  right. exact (loader_confined_proof cwd read dir nm s P).
+Qed.
+
+Lemma include_confined_proof : forall cwd read dir e parent choices s asked,
+  loader e = Some (path_loader read dir) -> (forall n, stored e n = None) ->
+  include_lookup e parent choices = (Found s, asked) ->
+  exists name p, In (Some name) choices /\
+    safe_join dir (join_template_path e name parent) = Some p /\ read p = ReadOk s /\ beneath cwd dir p = true.
+Proof.
+  intros cwd read dir e parent choices s asked L N. revert asked.
+  induction choices as [|[name|] rest IH]; intros asked H; cbn [include_lookup] in H; try discriminate.
+  destruct (state_get_template e parent name) as [r0 a0] eqn:G. destruct r0.
+  - injection H as -> <-. unfold state_get_template in G.
+    destruct (env_get_confined_proof cwd read dir e _ s a0 L G) as [X|(p & J & R & B)]; [rewrite N in X; discriminate|].
+    exists name, p. repeat split; auto. left; reflexivity.
+  - destruct (include_lookup e parent rest) as [r' a'] eqn:I. injection H as -> <-.
+    destruct (IH a' eq_refl) as (n & p & Hin & J & R & B). exists n, p. repeat split; auto. right; exact Hin.
+  - discriminate.
+Qed.
